@@ -63,11 +63,52 @@ func runC19(c *Ctx) {
 				}
 			}
 		}
+		// the guard may have been moved to the callers: then EVERY call of the handler (anywhere in the
+		// program) must sit behind a '.go' suffix test of the very path it passes
+		guardedByCallers := false
+		if suffixIf == nil {
+			nCalls, allGuarded := 0, true
+			for _, fn := range p.Funcs {
+				for _, b := range fn.Blocks {
+					for _, ins := range b.Instrs {
+						ci, ok := ins.(ssa.CallInstruction)
+						if !ok || staticCallee(ci.Common()) != handle || len(ci.Common().Args) == 0 {
+							continue
+						}
+						nCalls++
+						arg := ci.Common().Args[0]
+						guarded := false
+						for _, gb := range fn.Blocks {
+							iff, ok := gb.Instrs[len(gb.Instrs)-1].(*ssa.If)
+							if !ok {
+								continue
+							}
+							cond, neg := iff.Cond, false
+							if u, ok := cond.(*ssa.UnOp); ok && u.Op == token.NOT {
+								cond, neg = u.X, true
+							}
+							if tested, ok := goSuffixTested(cond); ok && sameLoad(tested, arg) && dominatedByEdge(b, gb, !neg) {
+								guarded = true
+							}
+						}
+						if !guarded {
+							allGuarded = false
+						}
+					}
+				}
+			}
+			guardedByCallers = nCalls > 0 && allGuarded
+		}
 		for _, target := range []struct {
 			fn   *ssa.Function
 			what string
 		}{{parse, "parse"}, {write, "write"}} {
 			calls := callsIn(handle, fnName(target.fn))
+			if guardedByCallers && len(calls) > 0 {
+				c.Sites++
+				c.OK("C19-ORDER", fnName(handle), "suffix-before-"+target.what, handle.Pos(), "every caller of the handler tests the '.go' suffix of the path it passes")
+				continue
+			}
 			ok := suffixIf != nil && len(calls) > 0
 			for _, call := range calls {
 				if suffixIf == nil || !dominatedByEdge(call.Block(), suffixIf, suffixTrueMeansGo) {
@@ -649,4 +690,63 @@ func callsInAny(fn *ssa.Function, name string) []ssa.Instruction {
 		}
 	}
 	return out
+}
+
+// sameLoad: the same SSA value, or two loads of one package-level variable (the flag variables of main
+// are read where they are used; nothing writes them after flag.Parse).
+func sameLoad(a, b ssa.Value) bool {
+	if a == b {
+		return true
+	}
+	la, ok1 := a.(*ssa.UnOp)
+	lb, ok2 := b.(*ssa.UnOp)
+	if !ok1 || !ok2 || la.Op != token.MUL || lb.Op != token.MUL {
+		return false
+	}
+	// one package-level variable, or one local variable cell (a flag variable declared in main and bound
+	// with flag.StringVar): both reads happen after flag.Parse
+	if la.X != lb.X {
+		return false
+	}
+	switch la.X.(type) {
+	case *ssa.Global, *ssa.Alloc:
+		return true
+	}
+	return false
+}
+
+// goSuffixTested: cond is strings.HasSuffix(x, ".go"), directly or through a one-line predicate of the
+// repository (func isGoFile(name string) bool { return strings.HasSuffix(name, ".go") }); returns x.
+func goSuffixTested(cond ssa.Value) (ssa.Value, bool) {
+	call, ok := cond.(*ssa.Call)
+	if !ok {
+		return nil, false
+	}
+	if calleeName(&call.Call) == "strings.HasSuffix" && len(call.Call.Args) == 2 {
+		if sfx, _ := constString(call.Call.Args[1]); sfx == ".go" {
+			return call.Call.Args[0], true
+		}
+		return nil, false
+	}
+	cal := staticCallee(&call.Call)
+	if cal == nil || cal.Pkg == nil || !strings.HasPrefix(cal.Pkg.Pkg.Path(), ModPath) || len(cal.Blocks) != 1 || len(cal.Params) == 0 {
+		return nil, false
+	}
+	ret, ok := cal.Blocks[0].Instrs[len(cal.Blocks[0].Instrs)-1].(*ssa.Return)
+	if !ok || len(ret.Results) != 1 {
+		return nil, false
+	}
+	inner, ok := ret.Results[0].(*ssa.Call)
+	if !ok || calleeName(&inner.Call) != "strings.HasSuffix" || len(inner.Call.Args) != 2 {
+		return nil, false
+	}
+	if sfx, _ := constString(inner.Call.Args[1]); sfx != ".go" {
+		return nil, false
+	}
+	for i, prm := range cal.Params {
+		if inner.Call.Args[0] == ssa.Value(prm) && i < len(call.Call.Args) {
+			return call.Call.Args[i], true
+		}
+	}
+	return nil, false
 }
